@@ -187,7 +187,7 @@ REGISTRY["C14"] = {
     "category": "other",
     "technique": "contract-based deductive verification of Elf.getinfo/getfileoffset on stub program headers with symbolic fields (z3); run-time contracts on synthesised ELF images and generated HEX/SREC streams",
     "level_text": "Bounded symbolic: address-to-segment and address-to-file-offset lookups are verified for ALL field values of program header tables with <= 3 loadable entries (the entry returned is the last one containing the address; offset = p_offset + (addr - p_vaddr); None iff no entry contains it). Run-time contracts (concrete, never counted as proved): synthesised ELF images in the four class/byte-order combinations with varying table positions against the generator's ground truth (header fields, program/section headers, entry point, file offsets, data); generated Intel-HEX / S-record streams decode to the records encoded and a wrong checksum is rejected by the format's own error. PE/COFF and Mach-O: only through the C20 samples, not covered here.",
-    "level_note": "the header layouts themselves are exercised through the synthesised images (built with the struct module from the ELF specification's field order), not proved; symbol tables, dynamic sections and PE/Mach-O tables are not covered by this check.",
+    "level_note": "the header layouts themselves are exercised through the synthesised images (built with the struct module from the ELF specification's field order), not proved; the PE headers and section table are compared with an independent struct-based reading on the one PE sample with a regular layout and on variants of it with rewritten VirtualSize/SizeOfRawData (run-time contract). Symbol tables, dynamic sections, import tables and Mach-O/COFF tables are not covered by this check.",
     "design_ref": "DESIGN.md section 4 (C14)",
     "explanation": "bounded symbolic verification of the ELF address lookups + run-time contracts on synthesised ELF images and HEX/SREC streams",
     "trusted_base": _TB + ["ELF image synthesiser and HEX/SREC encoders in contracts/formats.py (written from the format specifications)"],
